@@ -32,6 +32,8 @@ def _extract_playback(scratch, cell, timeout=900):
     cmd = ["cargo", "kani", "--no-default-features", "-Z", "stubbing", "-Z", "unstable-options",
            "-Z", "concrete-playback", "--concrete-playback=print",
            "--harness", cell.harness, "--exact", "--target-dir", str(scratch / "target")]
+    if not cell.reach:
+        cmd += ["--no-assertion-reach-checks"]
     if cell.unwindset:
         cmd += ["--cbmc-args", "--unwindset", cell.unwindset]
     rc, to, dt = vk.run_proc(cmd, src, timeout, max(cell.mem, 16), log, vk.kani_env())
@@ -59,7 +61,7 @@ def _native_replay(scratch, cell, test_src, profile):
     body = cell.file.read_text()
     # include shared helper modules by absolute path so relative #[path]s keep working
     hcopy.write_text(body + "\n" + test_src + "\n")
-    vk.attach_modules(nat, [(hcopy, cell.attach)])
+    vk.attach_modules(nat, [(hcopy, cell.attach)] + [vk.attach_file_of(n) for n in cell.needs])
     # attach_modules derives the module name from the file stem
     m = re.search(r"fn (kani_concrete_playback_\w+)", test_src)
     tname = m.group(1) if m else "kani_concrete_playback"
@@ -126,8 +128,8 @@ def replay_file(p):
     cell = cells[0]
     scratch = vk.make_scratch("replay")
     try:
-        vk.attach_modules(scratch / "divan", [(cell.file, cell.attach)])
-        ok, dt, blog = vk.build(scratch)
+        vk.attach_modules(scratch / "divan", vk.attach_list([cell]))
+        ok, dt, blog = vk.build(scratch, cell.harness)
         if not ok:
             print(Path(blog).read_text(errors="replace")[-3000:])
             print("ERROR replay build failed")
